@@ -15,7 +15,7 @@ CHECKS = {
         design='4/C02'),
     'C01': dict(
         technique='property-based differential testing (Hypothesis): tagged document vs. PyYAML SafeLoader on its tag-erased twin, two tag placements per skeleton',
-        text='Generated mapping documents (all scalar/key kinds, block/flow, quoting styles) with two independent random placements of every '
+        text='Generated mapping documents (all scalar/key kinds, block/flow/literal-block, quoting styles, yaml anchors and aliases) with two independent random placements of every '
              'merge-control tag and metadata form are built with Config.build and compared (exact types, order) with what PyYAML loads from the '
              'tag-erased rendering of the same AST. Exploration, not proof.',
         note='Trusts PyYAML SafeLoader as reference and the renderer (guarded by a third witness: the generator\'s own plain value).',
@@ -136,7 +136,7 @@ CHECKS = {
              'the same node kinds, content, priority, safety, targets/reference points/file names and metadata at every path, share no node '
              'object, merge identically as older and as newer stage against random tagged stages, evaluate identically, and stay unchanged '
              'when the other tree is mutated.',
-        note='delete / allow_new flags are compared through merge behaviour, not attribute by attribute.',
+        note='Public flags (priority, safety, delete, explicit_delete, allow_new) are compared node by node and behaviour through merge substitution; ill-formed originals are skipped.',
         design='4/C19'),
     'C20': dict(
         technique='property-based testing over generated schedules (Hypothesis) under a deterministic line-level thread scheduler (sys.settrace + condition variable): concurrent vs sequential observations',
